@@ -2,7 +2,7 @@ from vp.core import Query
 from vp.skel import KIT_RULES
 
 LEVEL = "model_checking"
-UNITS = ["src/sp/transport/tcp/tcp.c", "src/sp/transport/socket/sockfd.c", "src/sp/transport/ipc/ipc.c", "src/core/aio.c (nni_aio_iov_advance/count/set_iov)", "src/supplemental/websocket/websocket.c (ws_frame_prep_tx, ws_mask_frame, ws_read_finish)", "src/core/message.c (nni_chunk_insert: inproc header pull-up)", "src/sp/transport/inproc/inproc.c (pipe send/recv/close, queue_run, cancel)", "src/supplemental/http/http_conn.c (http_rd_buf, http_rd_cb, http_wr_cb: the byte stream under websocket frames)"]
+UNITS = ["src/sp/transport/tcp/tcp.c", "src/sp/transport/socket/sockfd.c", "src/sp/transport/ipc/ipc.c", "src/core/aio.c (nni_aio_iov_advance/count/set_iov)", "src/supplemental/websocket/websocket.c (ws_frame_prep_tx, ws_mask_frame, ws_read_finish)", "src/core/message.c (nni_chunk_insert: inproc header pull-up)", "src/sp/transport/inproc/inproc.c (pipe send/recv/close, queue_run, cancel)", "src/platform/posix/posix_tcpconn.c, posix_ipcconn.c, posix_sockfd.c (dowrite/doread)", "src/supplemental/http/http_conn.c (http_rd_buf, http_rd_cb, http_wr_cb: the byte stream under websocket frames)"]
 RULE = "Inductive steps over the framing invariant: one query per (transport, step, concrete header/body size); transfer size n, all length values, RECVMAXSZ, payload and handshake bytes symbolic."
 BOUNDS = "protocol header 0..64 bytes (concrete 0,4,8,64), body 0..3 bytes on transmit / 1..3 on receive, one partial transfer of ANY size followed by completion"
 OUTSIDE = "kernel/epoll behaviour, TLS, websocket frame header decoding (C16), inproc hand-off other than the header insert; the induction from one step to all segmentations is argued in DESIGN.md"
@@ -52,6 +52,18 @@ def queries(tier):
             qs.append(Query("inproc-h%d-%s" % (hl, w.replace(" ", "").replace("(", "").replace(")", "")), "c01/inproc.c", tus=["core/list.c"], env=IENV,
                             defs={"HL": hl, "SKEL": w}, cdefs=["-DENV_MSG_CAP=8"], unwind=12, unwind_rules=KIT_RULES + [(r"^(post_send|check_delivery|note_)", r".", 72)], timeout=300, group="c01/inproc.c",
                             params={"transport": "inproc", "header": hl, "skeleton": w}))
+    # platform stream code: partial readv / sendmsg / writev completion reporting
+    PENV = ["env_alloc.c", "env_misc.c", "env_sync.c", "env_aio.c", "env_libc.c"]
+    for which, wn in enumerate(("tcp", "ipc", "sockfd")):
+        for dirn, dn in ((0, "write"), (1, "read")):
+            for ret in ((1, 2, 3, 4) if dirn == 0 else (1, 2, 3, 4, 5)):
+                for lens in (("3, 0, 2",) if (tier == "quick" and ret != 1) else ("3, 0, 2", "5", "0, 4", "1, 1, 1, 1")):
+                    qs.append(Query("posix-%s-%s-ret%d-lens%s" % (wn, dn, ret, lens.replace(", ", "_")), "c01/posix_conn.c", tus=["core/list.c"],
+                                    env=PENV, defs={"WHICH": which, "DIR": dirn, "RET": ret, "LENS": lens}, unwind=20, timeout=300, group="c01/posix_conn.c#%d%d" % (which, dirn),
+                                    params={"unit": "platform/posix/posix_%s" % ("tcpconn.c", "ipcconn.c", "sockfd.c")[which], "direction": dn,
+                                            "syscall_outcome": {1: "n bytes, any n", 2: "EAGAIN", 3: "EINTR then n", 4: "ECONNRESET", 5: "end of stream"}[ret], "iov_lengths": lens}))
+        qs.append(Query("posix-%s-closed" % wn, "c01/posix_conn.c", tus=["core/list.c"], env=PENV, defs={"WHICH": which, "DIR": 0, "RET": 1, "CLOSED": 1},
+                        unwind=20, timeout=120, group="~posix-closed", params={"unit": wn, "case": "closed connection"}))
     # websocket framing of SP messages: the frame writer and the reassembly kernel of C16
     from props import C16
     for q in C16.queries(tier):
@@ -72,5 +84,5 @@ def queries(tier):
 
 MANIFEST = {
     "text": "Bounded symbolic check of the real tcp.c / sockfd.c / ipc.c framing (for a transfer of ANY size the next request is exactly the remaining suffix; ANY 64-bit length vs ANY RECVMAXSZ; delivery once with exactly the bytes carried; handshake accepted iff well-formed; all segmentations by induction on the number of transfers), of the real inproc.c hand-off (k-th receive gets the k-th accepted message, header||body unaltered, cancel/close/failed private copy), of the real http_conn.c byte stream under every segmentation of a short stream (what websocket frames are read and written through) and of the websocket fragment writer / reassembly incl. a receiver that arrives in the middle of a fragmented message.",
-    "note": "Accepted payload lengths <= 8 in the header-complete step; iov arithmetic of the aio model is checked equivalent to the real nni_aio_iov_advance; kernel I/O stubbed; http_conn streams of 12-14 bytes in <= 3-4 segments with position models of the head parsers; posix_*conn.c platform readv/sendmsg loops not encoded.",
+    "note": "Accepted payload lengths <= 8 in the header-complete step; iov arithmetic of the aio model is checked equivalent to the real nni_aio_iov_advance; kernel I/O stubbed; http_conn streams of 12-14 bytes in <= 3-4 segments with position models of the head parsers; the kernel itself is a stub (any transfer count / EAGAIN / EINTR / error / EOF).",
 }
